@@ -431,6 +431,9 @@ func (c *Ctx) runCLIIn(dir string, args []string, stdin string, timeout time.Dur
 
 func (c *Ctx) judgeProc(rec *ProcRec, args []string, wantOut string, r *CLIRun, src string) {
 	what, detail := "", ""
+	if len(args) > 0 && (args[0] == "p.bn" || args[0] == "a.BN" || len(args) == 3) {
+		c.sample(map[string]interface{}{"argv": args, "program": src, "expected_exit": rec.Exit, "expected_stdout": wantOut, "class": rec.Class})
+	}
 	switch {
 	case r.Killed:
 		what = "no-termination"
